@@ -98,7 +98,7 @@ static int lo_convert(MPT_INTERFACE(convertable) *c, MPT_TYPE(type) type, void *
 		return MPT_ERROR(BadType);
 	}
 	if (ptr) {
-		if (l->kind == K_LINE) memcpy(ptr, &l->u.line, sizeof(l->u.line));
+		if (l->kind == K_LINE) memmove(ptr, &l->u.line, sizeof(l->u.line));
 		else *((const void **) ptr) = &l->u;
 	}
 	return id;
@@ -448,8 +448,8 @@ static void drv_step(struct cmd *c)
 		drv_begin(c); j_str("ret", "no-object"); drv_dbg(); drv_end();
 		return;
 	}
-	if (!strcmp(a, "set") || !strcmp(a, "reset")) {
-		char *name = arg_name(c);
+	if (!strcmp(a, "set") || !strcmp(a, "reset") || !strcmp(a, "auto")) {
+		char *name = strcmp(a, "auto") ? arg_name(c) : 0;   /* auto: no name */
 		char text[256];
 		int rc = do_set(&obj[o], name, c, text, sizeof(text));
 		drv_begin(c);
@@ -485,10 +485,9 @@ static void drv_step(struct cmd *c)
 	}
 	else if (!strcmp(a, "copy")) {
 		int from = (int) drv_int(c, "from", 1) & 1;
-		char *name = arg_name(c);
-		int rc = obj[o].o._vptr->set_property(&obj[o].o, name, &obj[from].c);
+		const char *mode = drv_raw(c, "mode");     /* "null": no name, "empty": "" */
+		int rc = obj[o].o._vptr->set_property(&obj[o].o, (mode && !strcmp(mode, "empty")) ? "" : 0, &obj[from].c);
 		answer(c, rc);
-		free(name);
 	}
 	else if (!strcmp(a, "scribble")) {
 		char **s[4];
